@@ -268,11 +268,12 @@ def check_run(tree, res):
         problems.append(("run-list", "--list printed %r, iterate_tests ids are %r" % (text.split(), ids)))
     scratch = tempfile.mkdtemp(prefix="vt-c19-")
     try:
-        for S in SUBSETS:
+        for S, ending in [(S, "\n") for S in SUBSETS] + [(S, "\r\n") for S in SUBSETS[1:6]] + [(S, " \t\n") for S in SUBSETS[1:4]]:
             path = os.path.join(scratch, "ids")
-            with open(path, "w") as f:
+            # one id per line; CRLF files and ids padded with blanks are read the same way
+            with open(path, "w", newline="") as f:
                 for i in sorted(S):
-                    f.write(i + "\n")
+                    f.write(i + ending)
             del RAN[:]
             code, text = run_program(["--load-list", path])
             res.evaluations += 1
